@@ -44,8 +44,8 @@ CLAIMED = {
          "4 C17", "the sequential-program induction from per-call contracts to whole programs (U)"),
  "C19": ("Owicki-Gries at atomic-action granularity: each `with self._lock` block of the real OrderedLock methods preserves the ticket-queue invariant from ANY invariant state (hence under every interleaving of any number of threads); mutual exclusion + FIFO follow from the invariant at the point acquire returns; breaking on any exception class; counter returns k to the k-th holder; reader-view invariant at every Event.set for the lock-free re-read in acquire; the counter's caller uses the returned value",
          "4 C19", "fairness of threading.Lock and termination of critical sections (liveness); atomicity assumption G"),
- "C20": ("every wire codec pair executed symbolically on fully symbolic well-typed objects; N(from(to(x))) == N(x) per field, dict and JSON routes, plus presence of every option in the wire form; frame: decoders leave the wire dictionary unchanged; provenance obligation on the millisecond conversion (one known finding)",
-         "4 C20", "float rounding of the millisecond conversion is a recorded known finding (C20.timestamp.exact_millis); the round-trip obligations are proved under A"),
+ "C20": ("every wire codec pair executed symbolically on fully symbolic well-typed objects; N(from(to(x))) == N(x) per field, dict and JSON routes, plus presence of every option in the wire form; frame: decoders leave the wire dictionary unchanged; provenance obligation on the millisecond conversion (no value computed in floating point is truncated)",
+         "4 C20", "ms / 1000 in from_unix_millis is a float division (exact to well below a microsecond for realistic instants; A); to_unix_millis is exact integer arithmetic"),
 }
 checks = []
 for p in props:
